@@ -17,16 +17,19 @@ Import ListNotations.
 (* annotation sites of the fragment *)
 Inductive asite :=
   | SParam (f : fname) (i : nat) | SResult (f : fname) | SGlobal (k : nat)
-  | SCallParam (f : fname) (cs : nat) | SCallResult (f : fname) (cs : nat).
+  | SCallParam (f : fname) (cs : nat) | SCallResult (f : fname) (cs : nat)
+  | SIParam (k m i : nat) | SIResult (k m : nat).      (* parameter i / result of method m of interface k *)
 
 (* sites as the engine sees them (natural numbers) *)
 Definition enc (s : asite) : site :=
   match s with
-  | SParam f i => 5 * (f * 64 + i)
-  | SResult f => 5 * f + 1
-  | SGlobal k => 5 * k + 2
-  | SCallParam f cs => 5 * (cs * 64 + f) + 3
-  | SCallResult f cs => 5 * (cs * 64 + f) + 4
+  | SParam f i => 7 * (f * 64 + i)
+  | SResult f => 7 * f + 1
+  | SGlobal k => 7 * k + 2
+  | SCallParam f cs => 7 * (cs * 64 + f) + 3
+  | SCallResult f cs => 7 * (cs * 64 + f) + 4
+  | SIParam k m i => 7 * ((k * 8 + m) * 8 + i) + 5
+  | SIResult k m => 7 * (k * 8 + m) + 6
   end.
 
 Inductive prod :=
@@ -42,6 +45,8 @@ Definition asite_eqb (s t : asite) : bool :=
   | SGlobal k, SGlobal l => Nat.eqb k l
   | SCallParam f c, SCallParam g d => Nat.eqb f g && Nat.eqb c d
   | SCallResult f c, SCallResult g d => Nat.eqb f g && Nat.eqb c d
+  | SIParam k m i, SIParam k' m' i' => Nat.eqb k k' && Nat.eqb m m' && Nat.eqb i i'
+  | SIResult k m, SIResult k' m' => Nat.eqb k k' && Nat.eqb m m'
   | _, _ => false
   end.
 Definition prod_eqb (p q : prod) : bool :=
@@ -222,6 +227,17 @@ Section Analyze.
         Some {| a_env := None;
                 a_trig := map (fun p => mk_trigger 0 p (CSite (SResult f))) (prods_of_atom e a);
                 a_gsafe := use_ok (prods_of_atom e a) |}
+    | SConv x _ _ => Some {| a_env := Some (aput e x [PNever]); a_trig := store_triggers x [PNever]; a_gsafe := true |}
+    | SCallI _ d x xi k m args =>
+        (* calling a method on an interface value dereferences it; arguments and result go through the sites of
+           the interface method *)
+        let res := [PSite (SIResult k m)] in
+        let e' := mark_stale ng e in
+        Some {| a_env := Some (match x with Some y => aput e' y res | None => e' end);
+                a_trig := map (fun p => mk_trigger d p CAlways) (aget e xi) ++
+                          arg_triggers e (SIParam k m) 0 args ++
+                          match x with Some y => store_triggers y res | None => [] end;
+                a_gsafe := use_ok (aget e xi) && forallb (fun a => use_ok (prods_of_atom e a)) args |}
     end.
 End Analyze.
 
@@ -272,6 +288,36 @@ Definition dupt (g : fname) (cs : nat) (t : strig) : strig :=
      s_ctrl := if is_res_cons g t then Some (SCallParam g cs) else None |}.
 Definition dups (g : fname) (cs : nat) (tg : list strig) : list strig := map (dupt g cs) (filter (touches g) tg).
 
+(* ---- interfaces: the (interface, implementation) pairs witnessed by conversions, and their triggers ---- *)
+Fixpoint convs_of (st : stmt) : list (nat * nat) :=
+  match st with
+  | SSeq a b | SIf _ a b => convs_of a ++ convs_of b
+  | SWhile _ b => convs_of b
+  | SConv _ k j => [(k, j)]
+  | _ => []
+  end.
+
+Fixpoint seq_from (i n : nat) : list nat := match n with O => [] | S n' => i :: seq_from (S i) n' end.
+
+(* method m of the implementation, function f with np parameters (the receiver first): a nil-able result of f makes
+   the interface method's result nil-able; a nil-able parameter of the interface method makes f's nil-able *)
+Definition affil_method (k m : nat) (f : fname) (np : nat) : list strig :=
+  mk_trigger 0 (PSite (SResult f)) (CSite (SIResult k m)) ::
+  map (fun i => mk_trigger 0 (PSite (SIParam k m i)) (CSite (SParam f (S i)))) (seq_from 0 (pred np)).
+
+Fixpoint affil_methods (funcs : list func) (k m : nat) (row : list fname) : list strig :=
+  match row with
+  | [] => []
+  | f :: row' =>
+      match nth_error funcs f with
+      | Some fd => affil_method k m f (f_nparams fd)
+      | None => []
+      end ++ affil_methods funcs k (S m) row'
+  end.
+
+Definition affil (p : program) (kj : nat * nat) : list strig :=
+  affil_methods (p_funcs p) (fst kj) 0 (nth (snd kj) (p_impls p) []).
+
 Fixpoint calls_of (st : stmt) : list (fname * nat) :=
   match st with
   | SSeq a b | SIf _ a b => calls_of a ++ calls_of b
@@ -301,6 +347,7 @@ Fixpoint ctr_local (ctr : fname -> bool) (sp : fname -> fname -> bool) (f : fnam
 Record pres := { r_decl : list strig;            (* declarations of package-level variables *)
                  r_funcs : list (list strig);     (* per function *)
                  r_dups : list (list strig);      (* per caller: duplicated triggers of contracted callees *)
+                 r_affil : list (list strig);     (* per function: triggers of the (interface, implementation) pairs its conversions witness *)
                  r_gsafe : bool;                  (* no stale package-level value is used *)
                  r_clocal : bool }.               (* contracted functions are only called from their own package *)
 
@@ -311,10 +358,11 @@ Definition analyze_program (fuel : nat) (ctr : fname -> bool) (pk : fname -> nat
   | None => None
   | Some (tss, b) =>
       Some {| r_decl := decl_triggers 0 (p_ginit p); r_funcs := tss; r_dups := dups_all ctr sp tss 0 (p_funcs p);
+              r_affil := map (fun fd => flat_map (affil p) (convs_of (f_body fd))) (p_funcs p);
               r_gsafe := b; r_clocal := ctr_local ctr sp 0 (p_funcs p) |}
   end.
 
-Definition all_strigs (r : pres) : list strig := r_decl r ++ concat (r_funcs r) ++ concat (r_dups r).
+Definition all_strigs (r : pres) : list strig := r_decl r ++ concat (r_funcs r) ++ concat (r_dups r) ++ concat (r_affil r).
 Definition all_triggers (r : pres) : list trigger := map etrig (all_strigs r).
 
 (* syntactic well-formedness: calls name existing functions with the right number of arguments, every
@@ -344,11 +392,25 @@ Section WF.
     | SIf c a b => cond_ok c && stmt_ok a && stmt_ok b
     | SWhile c b => cond_ok c && stmt_ok b
     | SReturn a => atom_ok a
+    | SConv x _ _ => var_ok x
+    | SCallI _ _ x xi _ m args =>
+        var_ok xi && forallb atom_ok args && match x with Some y => var_ok y | None => true end &&
+        (* whatever concrete type the interface value holds, its method m takes the receiver and these arguments *)
+        forallb (fun row => match nth_error row m with
+                            | Some f => match nth_error (p_funcs p) f with
+                                        | Some fd => Nat.eqb (f_nparams fd) (S (length args))
+                                        | None => false
+                                        end
+                            | None => true
+                            end) (p_impls p)
     end.
   (* ... and the entry point takes no parameters *)
   Definition wf_program : bool :=
     forallb (fun fd => stmt_ok (f_body fd)) (p_funcs p) &&
     match p_funcs p with fd :: _ => Nat.eqb (f_nparams fd) 0 | [] => true end.
+  (* methods that implement an interface have no contract (a contract is about a function's only parameter) *)
+  Definition impls_plain (ctr : fname -> bool) : bool :=
+    forallb (fun row => forallb (fun f => negb (ctr f)) row) (p_impls p).
   (* contracts are about functions with exactly one parameter *)
   Fixpoint ctr_arity (ctr : fname -> bool) (f : fname) (fds : list func) : bool :=
     match fds with
